@@ -301,3 +301,51 @@ pub fn show_bits(bits: &[bool]) -> String {
         s
     }
 }
+
+/// An iterator adaptor whose `size_hint` is legal but inexact, in one of several
+/// ways (`mode`): consumers that pre-size from the hint (collect, extend) must still
+/// end up with exactly the items yielded.
+pub struct HintIter<I> {
+    it: I,
+    left: usize,
+    mode: u8,
+}
+
+impl<I: Iterator> HintIter<I> {
+    /// `len` must be the exact number of items `it` yields.
+    pub fn new(it: I, len: usize, mode: u8) -> Self {
+        HintIter { it, left: len, mode }
+    }
+    pub fn mode_name(mode: u8) -> &'static str {
+        match mode % 6 {
+            0 => "hint(0,None)",
+            1 => "hint(0,Some(2n+7))",
+            2 => "hint(n/2,Some(n+100))",
+            3 => "hint(n,None)",
+            4 => "hint(0,Some(n))",
+            _ => "hint(n,Some(n))",
+        }
+    }
+}
+
+impl<I: Iterator> Iterator for HintIter<I> {
+    type Item = I::Item;
+    fn next(&mut self) -> Option<I::Item> {
+        let x = self.it.next();
+        if x.is_some() {
+            self.left = self.left.saturating_sub(1);
+        }
+        x
+    }
+    fn size_hint(&self) -> (usize, Option<usize>) {
+        let n = self.left;
+        match self.mode % 6 {
+            0 => (0, None),
+            1 => (0, Some(2 * n + 7)),
+            2 => (n / 2, Some(n + 100)),
+            3 => (n, None),
+            4 => (0, Some(n)),
+            _ => (n, Some(n)),
+        }
+    }
+}
